@@ -695,13 +695,13 @@ Arguments m_chain {S} over_tbl scan_tbl fuel op v advs.
 (* ------------------------------------------------------------------ types.py: is_adverb, get_adverb_arity *)
 Local Open Scope string_scope.
 (* the arity of the verb an adverb takes; None = "the arity of the context" (Each / Each-2) *)
+(* all tables are kept sorted by key, as the translator emits them *)
 Definition adverb_arity_model : list (string * option nat) :=
-  [ ("'", None); (":\", Some 2%nat); (":'", Some 2%nat); (":/", Some 2%nat); ("/", Some 2%nat);
-    (":~", Some 1%nat); (":*", Some 1%nat); ("\", Some 2%nat); ("\~", Some 1%nat); ("\*", Some 1%nat);
-    ("@'", Some 1%nat) ].
+  [ ("'", None); ("/", Some 2%nat); (":'", Some 2%nat); (":*", Some 1%nat); (":/", Some 2%nat); (":\", Some 2%nat);
+    (":~", Some 1%nat); ("@'", Some 1%nat); ("\", Some 2%nat); ("\*", Some 1%nat); ("\~", Some 1%nat) ].
 
 Definition is_adverb_model : list string :=
-  [ "'"; ":\"; ":'"; ":/"; "/"; ":~"; ":*"; "\"; "\~"; "\*"; "@'" ].
+  [ "'"; "/"; ":'"; ":*"; ":/"; ":\"; ":~"; "@'"; "\"; "\*"; "\~" ].
 
 Fixpoint get_adverb_arity (t : list (string * option nat)) (s : string) (ctx : nat) : option nat :=
   match t with
@@ -711,21 +711,21 @@ Fixpoint get_adverb_arity (t : list (string * option nat)) (s : string) (ctx : n
 
 (* the shortcut tables the proofs are about *)
 Definition over_table_model : table :=
-  [ ("+", "reduce:add"); ("-", "reduce:subtract"); ("*", "reduce:multiply"); ("%", "reduce:divide");
-    ("&", "min:ndim1:nonobj"); ("|", "max:ndim1:nonobj"); (",", "concat:nonobj") ].
+  [ ("%", "reduce:divide"); ("&", "min:ndim1:nonobj"); ("*", "reduce:multiply"); ("+", "reduce:add");
+    (",", "concat:nonobj"); ("-", "reduce:subtract"); ("|", "max:ndim1:nonobj") ].
 Definition scan_table_model : table :=
-  [ ("+", "accumulate:add"); ("-", "accumulate:subtract"); ("*", "accumulate:multiply"); ("%", "accumulate:divide") ].
+  [ ("%", "accumulate:divide"); ("*", "accumulate:multiply"); ("+", "accumulate:add"); ("-", "accumulate:subtract") ].
 
 (* get_adverb_fn: symbol -> (function for arity 2, function for arity 1), as adverb2 / adverb1 dispatch *)
 Definition adverb_fn_model : list (string * (string * string)) :=
   [ ("'", ("eval_adverb_each2", "eval_adverb_each"));
     ("/", ("eval_adverb_over_neutral", "eval_adverb_over"));
-    ("\", ("eval_adverb_scan_over_neutral", "eval_adverb_scan_over"));
-    ("\~", ("eval_adverb_scan_while", "eval_adverb_scan_converging"));
-    ("\*", ("eval_adverb_scan_iterating", "eval_adverb_scan_iterating"));
-    (":\", ("eval_adverb_each_left", "eval_adverb_each_left"));
     (":'", ("eval_adverb_each_pair", "eval_adverb_each_pair"));
-    (":/", ("eval_adverb_each_right", "eval_adverb_each_right"));
     (":*", ("eval_dyad_adverb_iterate", "eval_dyad_adverb_iterate"));
+    (":/", ("eval_adverb_each_right", "eval_adverb_each_right"));
+    (":\", ("eval_adverb_each_left", "eval_adverb_each_left"));
     (":~", ("eval_adverb_while", "eval_adverb_converge"));
-    ("@'", ("eval_adverb_each_index", "eval_adverb_each_index")) ].
+    ("@'", ("eval_adverb_each_index", "eval_adverb_each_index"));
+    ("\", ("eval_adverb_scan_over_neutral", "eval_adverb_scan_over"));
+    ("\*", ("eval_adverb_scan_iterating", "eval_adverb_scan_iterating"));
+    ("\~", ("eval_adverb_scan_while", "eval_adverb_scan_converging")) ].
